@@ -14,7 +14,7 @@ import e2e
 import impl
 import progspace
 
-LEAN_TARGETS = ["CM.Props.Lift", "CM.Props.C16", "CM.Props.PrecIdem"]
+LEAN_TARGETS = ["CM.Props.Lift", "CM.Props.C16", "CM.Props.PrecIdem", "CM.Props.C02ScopeIdem"]
 THEOREMS = [
     "CM.Pipeline.C07_second_application_noop",
     "CM.Pipeline.C03_write_iff_changeset",
@@ -23,6 +23,7 @@ THEOREMS = [
     "CM.Prec.C07_combine_idempotent",
     "CM.Prec.C07_invert_idempotent",
     "CM.Prec.C07_invert_old_second_pass_changes",
+    "CM.Scope.C07_clean_idempotent",
 ]
 RULE = (
     "expression rewrites: combine-startswith-endswith and invert-boolean-check run twice through the CLI on generated `if` tests; the "
@@ -40,7 +41,8 @@ LEVEL_TEXT = (
     "'no changes => no changeset' and 'empty diff => no changeset'); (mechanism) the shared argument editor is a fixed point on its own "
     "output (C07_replaceArgs_idem_single); (expression rewrites, CM.Prec) the combine pass reaches a normal form in one application "
     "on every tree (C07_combine_idempotent) and so does the invert pass (C07_invert_idempotent; before a fix `not (<comparison> is True)` "
-    "became `not <comparison>`, which the second run flipped: C07_invert_old_second_pass_changes). The argument editor is tied to the code by running the real replace_args twice; the contract "
+    "became `not <comparison>`, which the second run flipped: C07_invert_old_second_pass_changes); (clean-up pass, CM.Scope) the "
+    "unused-assignment clean-up with libcst's reference attribution removes nothing on its own output (C07_clean_idempotent). The argument editor is tied to the code by running the real replace_args twice; the contract "
     "is validated by a real second run over the whole program space."
 )
 LEVEL_NOTE = "Partial: per-transformer idempotence is validated by search only. Trusted: Lean kernel (propext, Quot.sound, Classical.choice)."
@@ -52,6 +54,34 @@ def corr(ctx):
         if "twice" in im and im["twice"] != im["args"]:
             ctx.fail({"kind": "replace-args-not-idempotent"}, f"replace_args applied to its own output changes it again: {im['src']}", {"request": rq, "impl": im})
     prec_second_application(ctx)
+    scope_second_application(ctx)
+
+
+def scope_second_application(ctx):
+    """CM.Scope: the unused-assignment clean-up (run by sql-parameterization over the whole module) applied to its own output - the real
+    `RemoveUnusedVariables` twice against the model's pass twice, and the property on the real outputs"""
+    import scopecorr
+
+    rng = ctx.rng
+    bodies = [scopecorr.gen_body(rng) for _ in range(ctx.pick(100, 800))]
+    codes = [scopecorr.program(b) for b in bodies]
+    inputs = [scopecorr.parse_back(c) for c in codes]
+    first = common.lean_ask([{"op": "scope_clean", "body": b} for b in inputs])
+    if any("err" in a for a in first):
+        ctx.broke("scope_clean driver op", str([a for a in first if "err" in a][:1])); return
+    second = common.lean_ask([{"op": "scope_clean", "body": a["cleaned"]} for a in first])
+    for b, code, a1, a2 in zip(inputs, codes, first, second):
+        once = scopecorr.real_clean(code)
+        twice = scopecorr.real_clean(once)
+        changed = a1["cleaned"] != b
+        ctx.corr_case("scope_second", {"program": code}, {"first": scopecorr.parse_back(once), "second": scopecorr.parse_back(twice)},
+                      {"first": a1["cleaned"], "second": a2["cleaned"]}, changed, "scope-second:" + ("first-removes" if changed else "nothing-to-remove"))
+        if a2["cleaned"] != a1["cleaned"]:
+            ctx.broke("CM.Scope.C07_clean_idempotent instance", code)
+        ctx.search_case("clean-up-second-application", {"program": code}, changed)
+        if twice != once:
+            ctx.fail({"kind": "second-run-changes", "codemod": "pixee:python/sql-parameterization", "wrote": True, "shape": "clean-up-pass"},
+                     "RemoveUnusedVariables (the clean-up pass of sql-parameterization) applied to its own output removes more", {"before": code, "after": once, "after2": twice})
 
 
 def prec_second_application(ctx):
